@@ -20,7 +20,7 @@ from ..report import Ctx
 from ..selftest import Mutant
 
 PROP = "C18"
-TECHNIQUE = "static analysis: condition-directed reachability of eager calls under lazy=True + CFG typestate rules of _LazyFunction.evaluate (guard, flag, result) + container-recursion coverage + task-graph edge direction and who-writes rules + container-rebuild rule"
+TECHNIQUE = "static analysis: condition-directed reachability of eager calls under lazy=True + CFG typestate rules of _LazyFunction.evaluate (guard, flag, result) + container-recursion coverage + task-graph edge direction and who-writes rules + container-rebuild rule + every-reaching-definition rule for the resolved arguments + identity-preserving (unshared) cache option derived from `lazy` for every cache class"
 EXPLANATION = (
     "Static analysis of pipefunc/lazy.py and of the lazy arms in _pipeline/_base.py and _pipefunc.py: CFG dominance and "
     "must-pass-through queries for the memoisation typestate of _LazyFunction.evaluate, def-use of the call arguments, "
@@ -266,6 +266,8 @@ def check(ctx: Ctx) -> None:
 
 L, B, PF = "pipefunc/lazy.py", "pipefunc/_pipeline/_base.py", "pipefunc/_pipefunc.py"
 MUTANTS = [
+    Mutant("disk-cache-pickles-lazy-nodes", "pipefunc/_pipeline/_cache.py", "        cache_kwargs.setdefault(\"lru_shared\", not lazy)\n", "", ("C18.3-shared",), why="round-4 seed C18/11"),
+    Mutant("evaluate-skips-resolution-for-pipefuncs", "pipefunc/lazy.py", "        args = evaluate_lazy(self.args)\n        kwargs = evaluate_lazy(self.kwargs)\n", "        if hasattr(self.func, \"output_name\"):\n            args, kwargs = self.args, self.kwargs\n        else:\n            args = evaluate_lazy(self.args)\n            kwargs = evaluate_lazy(self.kwargs)\n", ("C18.2-memo",), why="round-4 seed C18/10"),
     Mutant("lazy-arm-runs", B, "    if lazy:\n        return _LazyFunction(func, kwargs=func_args)\n", "    if lazy:\n        return _LazyFunction(lambda r=func(**func_args): r)\n", ("C18.1-deferred",)),
     Mutant("picker-forced", B, "                _LazyFunction(func.output_picker, args=(r, name))\n                if lazy\n                else func.output_picker(r, name)\n", "                func.output_picker(r.evaluate() if lazy else r, name)\n", ("C18.1-deferred", "C18.3-shared")),
     Mutant("flag-before-call", L, "        result = self.func(*args, **kwargs)\n        self._result = result\n        self._evaluated = True\n", "        self._evaluated = True\n        result = self.func(*args, **kwargs)\n        self._result = result\n", ("C18.2-memo",)),
